@@ -42,7 +42,7 @@ ASSUMPTIONS = [
 ]
 SETTINGS: Dict[str, Dict[str, Any]] = {
     "quick": {"cases": 16, "inproc_cases": 300, "inproc_perm_cases": 1600, "budget_s": 75, "minimums": {"relation_1": 12, "relation_2": 12, "relation_2_with_edited_earlier_reports": 3, "relation_3": 12, "relation_4": 12, "relation_5": 12, "relation_6": 12, "inproc_engine_reuse": 200, "inproc_row_permutation": 1000, "inproc_row_permutation_with_sub_second_lots": 200, "nontrivial": 12}},
-    "thorough": {"cases": 200, "inproc_cases": 8000, "inproc_perm_cases": 60000, "budget_s": 600, "minimums": {"relation_1": 100, "relation_2": 100, "relation_2_with_edited_earlier_reports": 30, "relation_3": 100, "relation_4": 100, "relation_5": 100, "relation_6": 100, "inproc_engine_reuse": 5000, "inproc_row_permutation": 30000, "inproc_row_permutation_with_sub_second_lots": 6000, "nontrivial": 100}},
+    "thorough": {"cases": 200, "inproc_cases": 8000, "inproc_perm_cases": 60000, "budget_s": 600, "minimums": {"relation_1": 60, "relation_2": 60, "relation_2_with_edited_earlier_reports": 18, "relation_3": 60, "relation_4": 60, "relation_5": 60, "relation_6": 60, "inproc_engine_reuse": 3000, "inproc_row_permutation": 18000, "inproc_row_permutation_with_sub_second_lots": 3600, "nontrivial": 60}},
 }
 REPORTS = COUNTRY_REPORTS["us"]
 
